@@ -5,7 +5,7 @@ d="/verif/seeded/$id-$x"
 mkdir -p "$d"
 cp "$sd/patch$x.diff" "$d/patch.diff"
 cp "$sd/demo${x}_test.go" "$d/demo_test.go"
-python3 - "$sd/meta$x.json" "$d/meta.json" "$id" "$det" "$note" "$sd/verify.log" <<'PY'
+python3 - "$sd/meta$x.json" "$d/meta.json" "$id" "$det" "$note" "$sd/verify$x.log" <<'PY'
 import json,sys
 src,dst,pid,det,note,vlog=sys.argv[1:7]
 m=json.load(open(src))
